@@ -419,3 +419,9 @@ pub fn in_server<T: serde::Serialize + serde::de::DeserializeOwned>(key: &'stati
         }
     }
 }
+
+/// An address that may cross threads (the pointee's use is synchronised by the caller).
+#[derive(Clone, Copy)]
+pub struct SendAddr(pub usize);
+unsafe impl Send for SendAddr {}
+unsafe impl Sync for SendAddr {}
